@@ -33,11 +33,21 @@ def closeout_quantity(chk):
         if v is not None and sym.contains(v, lambda x: x[0] == "fld" and x[2] == R.POSITION):
             q0 = v
     chk.need(q0 is not None, "SecurityBase.allocate: cannot find the quantity variable")
-    ok = False
-    for g, leaf in sym.cases(q0):
-        gg = sym.sat(g)
-        closing = any(p and a[0] == "zero" and sym.contains(a, lambda x: x == ("param", "amount")) and sym.contains(a, lambda x: x[0] == "fld" and x[2] == R.VALUE) for a, p in gg)
-        if closing:
-            ok = sym.equal(core_rules.norm_versions(leaf), ("neg", fld(SELF, R.POSITION)))
+    closing_atom = None
+    for n in sym.walk(q0):
+        if n[0] == "ite":
+            c = sym.canon(n[1])
+            cands = [c] + (list(c[1:]) if c[0] in ("and", "or") else [])
+            for a in cands:
+                if a[0] == "zero" and sym.contains(a, lambda x: x == ("param", "amount")) and sym.contains(a, lambda x: x[0] == "fld" and x[2] == R.VALUE):
+                    closing_atom = a
+    oks = []
+    if closing_atom is not None:
+        for pol in (True, False):
+            g = sym.sat([(closing_atom, True), (fld(SELF, "integer_positions"), pol)])
+            v = sym.restrict(q0, g)
+            for _, leaf in sym.cases(v):
+                oks.append(sym.equal(core_rules.norm_versions(leaf), ("neg", fld(SELF, R.POSITION))))
+    ok = bool(oks) and all(oks)
     chk.ob("C16.R2", ok, CORE, "SecurityBase.allocate", "closeout-quantity-exact", "allocating exactly minus the value trades exactly minus the position (whole or fractional): liquidation leaves nothing",
            where=S.fn.where, expected="q = -position under is_zero(amount + value), not rounded", found=core_rules.short(q0, 200))
